@@ -123,6 +123,9 @@ func goRuntimeEfaceHash(i interface{}, seed uintptr) uintptr
 
 // Hash returns a hash for the value.
 func (v Value) Hash() uintptr {
+	if h, ok := verifHash(v); ok {
+		return h
+	}
 	if v.scalar != 0 {
 		return goRuntimeInt64Hash(v.scalar, 0)
 	}
